@@ -838,3 +838,175 @@ Proof.
   { eapply reach_tls with (e := Words [w40]); [simpl; auto|apply pts_word; simpl; auto]. }
   intros p Hp. simpl in Hp. intuition (subst; assumption).
 Qed.
+
+(* ------------------------------------------------------------------ collection points of a history *)
+Definition inv (s : state) : Prop :=
+  range_ok (st_reg s) (st_minptr s) (st_maxptr s) /\ order_ok (st_reg s) (st_order s).
+
+Definition heap_ok (s : state) : Prop :=
+  wf (st_heap s) (st_reg s) (st_tls s) /\ raw_wf (st_heap s) (st_reg s).
+
+(* admissible events: alloc returns a fresh, non-NULL, word-aligned address *)
+Definition event_ok (s : state) (e : event) : Prop :=
+  match e with
+  | EAlloc p _ _ => registered (st_reg s) p = false /\ p <> 0%N /\ (p mod 8 = 0)%N
+  | _ => True
+  end.
+
+(* what "the collection inside event e was safe" means; s1 = state at the collection point *)
+Definition collection_safe (s1 : state) (extra : list word) (fin : list word) (s' : state) : Prop :=
+  (forall q, registered (st_reg s1) q = true ->
+             reach (st_heap s1) (st_reg s1) (st_tls s1) (extra ++ st_stack s1) q ->
+             ~ In q fin /\ registered (st_reg s') q = true) /\
+  (forall q, In q extra -> ~ In q fin) /\
+  (forall q, is_root (st_reg s1) q = true -> ~ In q fin /\ registered (st_reg s') q = true) /\
+  (forall q, In q fin -> registered (st_reg s1) q = true /\ is_root (st_reg s1) q = false) /\
+  NoDup fin.
+
+Lemma registered_nset rg p r q : p <> 0%N ->
+  registered (nset p r rg) q = true <-> q = p \/ registered rg q = true.
+Proof.
+  intros Hp. unfold registered. destruct (N.eq_dec q p) as [->|Hne].
+  - rewrite nget_nset_same by assumption. tauto.
+  - rewrite nget_nset_other by assumption. split; [auto|]. intros [E|E]; [congruence|exact E].
+Qed.
+
+Lemma NoDup_snoc {A} (l : list A) (a : A) : NoDup l -> ~ In a l -> NoDup (l ++ [a]).
+Proof.
+  induction l as [|x l IH]; simpl; intros Hnd Hn.
+  - constructor; [intros []|constructor].
+  - inversion Hnd; subst. constructor.
+    + rewrite in_app_iff. simpl. intros [H|[H|[]]]; [auto|]. apply Hn. auto.
+    + apply IH; auto.
+Qed.
+
+Lemma inv_alloc s p c root : inv s -> event_ok s (EAlloc p c root) -> inv (alloc_state s p c root).
+Proof.
+  intros [Hr [Hnd Hin]] (Hfresh & Hnz & Hal). split.
+  - intros q Hq. cbn [alloc_state st_reg st_minptr st_maxptr] in *.
+    apply registered_nset in Hq; [|assumption]. destruct Hq as [->|Hq].
+    + split; [assumption|]. split; [apply N.le_min_l|apply N.le_max_l].
+    + destruct (Hr q Hq) as (A & B & C). split; [assumption|].
+      split; [etransitivity; [apply N.le_min_r|exact B]|etransitivity; [exact C|apply N.le_max_r]].
+  - cbn [alloc_state st_reg st_order]. split.
+    + apply NoDup_snoc; [assumption|]. intros Hp. apply Hin in Hp. congruence.
+    + intros q. rewrite in_app_iff, registered_nset by assumption. rewrite Hin. simpl. intuition congruence.
+Qed.
+
+Lemma inv_after_dels s fin s' :
+  inv s ->
+  st_reg s' = fold_right ndel (st_reg s) fin ->
+  st_order s' = filter (fun p => registered (st_reg s') p) (st_order s) ->
+  st_minptr s' = st_minptr s -> st_maxptr s' = st_maxptr s -> inv s'.
+Proof.
+  intros [Hr [Hnd Hin]] Hreg Hord Hmin Hmax. split.
+  - intros q Hq. rewrite Hmin, Hmax. apply Hr. rewrite Hreg in Hq. apply registered_after_dels in Hq. tauto.
+  - rewrite Hord. split; [apply NoDup_filter; assumption|].
+    intros q. rewrite filter_In. split; [tauto|]. intros Hq. split; [|exact Hq].
+    apply Hin. rewrite Hreg in Hq. apply registered_after_dels in Hq. tauto.
+Qed.
+
+Section Threshold.
+  Lemma do_collect_safe s extra :
+    inv s -> heap_ok s ->
+    exists s' fin, do_collect true true s extra = Ok (s', fin) /\ collection_safe s extra fin s' /\ inv s'.
+  Proof.
+    intros Hinv [Hwf Hraw]. pose proof Hinv as [Hr Ho].
+    destruct (collect_safe_thm (st_heap s) (st_reg s) (st_minptr s) (st_maxptr s) (st_order s) (st_tls s)
+                (extra ++ st_stack s) Hr Ho Hwf Hraw) as (rg' & fin & Hc & Hkeep & Hroot & Hfin & Hnd).
+    unfold do_collect. rewrite Hc. cbn [bind]. eexists. exists fin. split; [reflexivity|]. split.
+    - unfold collection_safe. cbn [st_reg]. split; [exact Hkeep|]. split; [|split; [exact Hroot|split; [exact Hfin|exact Hnd]]].
+      intros q Hq Hqf. destruct (Hfin q Hqf) as [Hqr _].
+      destruct (Hkeep q Hqr) as [Hn _]; [|contradiction].
+      apply reach_stack. apply in_app_iff. auto.
+    - unfold collect in Hc. apply bind_ok in Hc. destruct Hc as (m & _ & Hs). inversion Hs as [Hs'].
+      unfold sweep in Hs'. inversion Hs'; subst rg' fin.
+      eapply inv_after_dels; [exact Hinv| | | |]; reflexivity.
+  Qed.
+
+  (* (5) at every collection point — the `nitems > mitems` trigger inside alloc, with the
+     newborn among the stack words, or a forced collection — the collection terminates and
+     is safe, and the registry-side invariants are kept *)
+  Lemma threshold_collect_safe_lemma s e s1 extra :
+    collection_point s e = Some (s1, extra) -> inv s1 -> heap_ok s1 ->
+    exists s' fin, step true true s e = Ok (s', fin) /\ collection_safe s1 extra fin s' /\ inv s'.
+  Proof.
+    intros Hcp Hinv Hok. destruct e as [p c root| | | |]; cbn [collection_point] in Hcp; try discriminate.
+    - cbn [step]. destruct (st_mitems s <? length (st_order (alloc_state s p c root))); [|discriminate].
+      inversion Hcp; subst. apply do_collect_safe; assumption.
+    - inversion Hcp; subst. cbn [step]. apply do_collect_safe; assumption.
+  Qed.
+
+  Lemma inv_step s e s' fin :
+    inv s -> event_ok s e -> step true true s e = Ok (s', fin) ->
+    (forall s1 extra, collection_point s e = Some (s1, extra) -> heap_ok s1) -> inv s'.
+  Proof.
+    intros Hinv Hev Hstep Hok. destruct e as [p c root|p c|tls stack|p|].
+    - cbn [step] in Hstep. pose proof (inv_alloc s p c root Hinv Hev) as Hinv1.
+      destruct (st_mitems s <? length (st_order (alloc_state s p c root))) eqn:E.
+      + destruct (do_collect_safe (alloc_state s p c root) [p] Hinv1) as (s2 & fin2 & H2 & _ & I2).
+        * apply (Hok _ [p]). cbn [collection_point]. rewrite E. reflexivity.
+        * rewrite H2 in Hstep. inversion Hstep; subst. exact I2.
+      + inversion Hstep; subst. exact Hinv1.
+    - cbn [step] in Hstep. inversion Hstep; subst. exact Hinv.
+    - cbn [step] in Hstep. inversion Hstep; subst. exact Hinv.
+    - cbn [step] in Hstep. destruct (registered (st_reg s) p) eqn:E; inversion Hstep; subst; [|exact Hinv].
+      destruct Hinv as [Hr [Hnd Hin]]. split; cbn [st_reg st_minptr st_maxptr st_order].
+      + intros q Hq. apply Hr. unfold registered in *. destruct (N.eq_dec q p) as [->|Hne].
+        * rewrite nget_ndel_same in Hq. discriminate.
+        * rewrite nget_ndel_other in Hq by assumption. exact Hq.
+      + split; [apply NoDup_filter; assumption|]. intros q. rewrite filter_In, negb_true_iff, N.eqb_neq.
+        unfold registered. destruct (N.eq_dec q p) as [->|Hne].
+        * rewrite nget_ndel_same. split; [intros [_ F]; congruence|discriminate].
+        * rewrite nget_ndel_other by assumption. fold (registered (st_reg s) q). rewrite Hin. tauto.
+    - cbn [step] in Hstep.
+      destruct (do_collect_safe s [] Hinv) as (s2 & fin2 & H2 & _ & I2).
+      + apply (Hok _ []). reflexivity.
+      + rewrite H2 in Hstep. inversion Hstep; subst. exact I2.
+  Qed.
+
+  (* every history: as long as each event is admissible and the heap is well formed at each
+     collection point, every step succeeds and every collection in it is safe *)
+  Fixpoint hist_safe (tr mg : bool) (s : state) (es : list event) : Prop :=
+    match es with
+    | [] => True
+    | e :: r =>
+      event_ok s e ->
+      (forall s1 extra, collection_point s e = Some (s1, extra) -> heap_ok s1) ->
+      exists s' fin, step tr mg s e = Ok (s', fin)
+        /\ (forall s1 extra, collection_point s e = Some (s1, extra) -> collection_safe s1 extra fin s')
+        /\ hist_safe tr mg s' r
+    end.
+
+  Lemma history_collect_safe_lemma : forall es s, inv s -> hist_safe true true s es.
+  Proof.
+    induction es as [|e r IH]; intros s Hinv; cbn [hist_safe]; [exact I|].
+    intros Hev Hok.
+    destruct (collection_point s e) as [[s1 extra]|] eqn:Hcp.
+    - assert (Hinv1 : inv s1).
+      { destruct e as [p c root| | | |]; cbn [collection_point] in Hcp; try discriminate.
+        - destruct (st_mitems s <? length (st_order (alloc_state s p c root))); [|discriminate].
+          inversion Hcp; subst. apply inv_alloc; assumption.
+        - inversion Hcp; subst. exact Hinv. }
+      destruct (threshold_collect_safe_lemma s e s1 extra Hcp Hinv1 (Hok _ _ eq_refl)) as (s' & fin & Hs & Hsafe & Hinv').
+      exists s', fin. split; [exact Hs|]. split; [|apply IH; exact Hinv'].
+      intros s1' extra' E. inversion E; subst. exact Hsafe.
+    - assert (Hs : exists s' fin, step true true s e = Ok (s', fin)).
+      { destruct e as [p c root|p c|tls stack|p|]; cbn [collection_point] in Hcp; cbn [step].
+        - destruct (st_mitems s <? length (st_order (alloc_state s p c root))); [discriminate|eauto].
+        - eauto.
+        - eauto.
+        - destruct (registered (st_reg s) p); eauto.
+        - discriminate. }
+      destruct Hs as (s' & fin & Hs). exists s', fin. split; [exact Hs|]. split; [intros s1 extra E; discriminate|].
+      apply IH. eapply inv_step; eauto. intros s1 extra E. rewrite Hcp in E. discriminate.
+  Qed.
+End Threshold.
+
+Lemma inv_st0 : inv st0.
+Proof.
+  split.
+  - intros p Hp. unfold registered in Hp. cbn [st0 st_reg] in Hp. rewrite nget_nempty in Hp. discriminate.
+  - split; [constructor|]. intros p. cbn [st0 st_reg st_order]. unfold registered. rewrite nget_nempty.
+    split; [intros []|discriminate].
+Qed.
